@@ -278,7 +278,11 @@ func (e *Engine) invoke(fr *Frame, instr ssa.Instruction, recv *Term, ifaceT typ
 		key := "ext:" + typeKey(ifaceT) + "." + method.Name()
 		ctx := &CallCtx{e: e, fr: fr, st: s2, rd: s2, pc: p2, pcOut: p2, args: append([]*Term{recv}, args...), name: key, instr: instr, resT: resT, label: label}
 		if m, ok := e.models[key]; ok {
-			return m(ctx), ctx.pcOut
+			r := m(ctx)
+			if r != nil && !(fr != nil && fr.clause) {
+				e.callHist["last:"+key] = r
+			}
+			return r, ctx.pcOut
 		}
 		// try the method's own interface (embedded interfaces)
 		if named, ok := method.Type().(*types.Signature).Recv().Type().(*types.Named); ok {
